@@ -369,6 +369,76 @@ Section LineProofs.
   Theorem idle_is_fresh min drv f bs :
     fwf f -> fidle f -> lrun (mkL min drv f) bs = lrun (mkL min drv finit) bs.
   Proof. intros H Hi. rewrite (fwf_idle_init f H Hi). reflexivity. Qed.
+
+  Lemma bcast_effect_unfold code ps (u : U) :
+    bcast_effect code ps u =
+      if negb (known code) then u
+      else match decode code ps with
+           | DCall c k => if is_getter k then u else fst (sem u c)
+           | _ => u
+           end.
+  Proof. reflexivity. Qed.
+
+  Lemma idle_states min drv f bs :
+    freach f -> fidle f -> lrun (mkL min drv f) bs = lrun (mkL min drv finit) bs.
+  Proof. intros H. apply idle_is_fresh. now apply freach_fwf. Qed.
+
+  (* ---------- line-level statements of part c03_as ---------- *)
+
+  Lemma lrun_app bs1 : forall l bs2,
+    lrun l (bs1 ++ bs2) =
+    let (l1, o1) := lrun l bs1 in let (l2, o2) := lrun l1 bs2 in (l2, o1 ++ o2).
+  Proof.
+    induction bs1 as [|b bs1 IH]; intros l bs2; cbn [AslLine.lrun app].
+    - destruct (lrun l bs2). reflexivity.
+    - destruct (lstep l b) as [l1 o]. rewrite IH. destruct (lrun l1 bs1) as [l2 o2].
+      destruct (lrun l2 bs2). reflexivity.
+  Qed.
+
+  Lemma lrun_shape l bs :
+    l_min (fst (lrun l bs)) = l_min l /\ l_f (fst (lrun l bs)) = fst (frun (l_f l) bs).
+  Proof.
+    rewrite lrun_play. destruct (frun (l_f l) bs) as [f' evs].
+    destruct (play (l_min l) (l_drv l) evs). cbn. auto.
+  Qed.
+
+  Theorem resync_then_command l bs q :
+    freach (l_f l) -> Forall non_header bs -> (10 <= length bs)%nat -> wf_req q -> bytes_req q ->
+    exists drv1 os,
+      lrun l bs = (mkL (l_min l) drv1 finit, os) /\
+      lrun l (bs ++ frame_of q) =
+        (mkL (l_min l) (fst (exec true true (l_min l) drv1 q)) finit,
+         os ++ repeat OTrue (length (frame_of q) - 1) ++ [snd (exec true true (l_min l) drv1 q)]).
+  Proof.
+    intros Hr Hn Hl Hw Hb.
+    pose proof (resync_nonheader_10 _ bs Hr Hn Hl) as Hidle.
+    pose proof (freach_run _ bs Hr) as Hr2.
+    pose proof (fresh_after_idle _ Hr2 Hidle) as Hf.
+    destruct (lrun_shape l bs) as [Hm Hs]. rewrite Hf in Hs.
+    destruct (lrun l bs) as [[m1 drv1 f1] os] eqn:E. cbn [fst l_min l_f] in Hm, Hs. subst m1 f1.
+    exists drv1, os. split; [reflexivity|].
+    rewrite lrun_app, E. rewrite (lrun_frame (l_min l) drv1 q Hw Hb). reflexivity.
+  Qed.
+
+  Theorem zero_nibble_outcome l b : length (f_msg (l_f l)) = 1%nat -> 1 <= b <= 31 ->
+    lstep l b = (mkL (l_min l) (l_drv l) finit, OValueError).
+  Proof.
+    intros Hl Hb. unfold AslLine.lstep, lstep_gen. rewrite (zero_nibble_rejected _ b Hl Hb). reflexivity.
+  Qed.
+
+  Theorem bad_bcast_length_outcome l b : length (f_msg (l_f l)) = 2%nat -> f_all (l_f l) = true ->
+    (b < 1 \/ 7 < b) -> lstep l b = (mkL (l_min l) (l_drv l) finit, OValueError).
+  Proof.
+    intros Hl Ha Hb. unfold AslLine.lstep, lstep_gen.
+    rewrite (bad_bcast_length_rejected _ b Hl Ha Hb). reflexivity.
+  Qed.
+
+  Theorem discarded_outcome l b : freach (l_f l) -> fidle (l_f l) -> non_header b ->
+    lstep l b = (l, OFalse).
+  Proof.
+    intros Hr Hi Hb. unfold AslLine.lstep, lstep_gen. rewrite (idle_discards_reach _ b Hr Hi Hb).
+    destruct l; reflexivity.
+  Qed.
 End LineProofs.
 
 (* ------------------------------------------------------------------------------------------ *)
